@@ -339,6 +339,10 @@ def holeEnds {α : Type} (xs : List (Option α)) : Bool :=
 
 def numV (n : Nat) : Option V := some (.num (Int.ofNat n))
 
+/-- some attribute `x` together with its view counterpart `&x` (GenericTuple.With strips the counterpart, NewTuple
+does not: what a tuple expression naming both evaluates to depends on whether all its values are literals) -/
+def ampPair (names : List (List Nat)) : Bool := names.any (fun n => names.contains (38 :: n))
+
 namespace Rep
 
 /-! ### meaning of a representation -/
@@ -460,7 +464,9 @@ def den : PT → Option V
     | some ps => if nodupKeys ps then some (V.mkSet (ps.map entryV)) else none      -- "duplicate key"
     | none => none
   | .set xs => (denList xs).map V.mkSet
-  | .tup kvs => (denAttrs kvs).map V.mkTup
+  | .tup kvs =>
+    if ampPair (kvs.filterMap (fun p => parseName p.1)) then none      -- outside the modelled fragment, see `ampPair`
+    else (denAttrs kvs).map V.mkTup
   | .rel names rows => if names.all isIdent then (denRows names rows).map V.mkSet else none
   | .kwTrue => some V.tt
 def denOpts : List (Option PT) → Option (List (Option V))
@@ -513,8 +519,9 @@ def printable : Rep → Bool
   | .arr _ xs => !holeEnds xs && prOpts xs
   | .dict es => prPairs es && nodupKeys (denPairs es)             -- single-valued keys
   | .set xs => prList xs
-  | .tup as => prAttrs as
-  | .rel names rows => names.all (fun n => n.all isScalar && decide (n ≠ [42])) && prRows names.length rows
+  | .tup as => !ampPair (as.map Prod.fst) && prAttrs as
+  | .rel names rows =>
+    !ampPair names && names.all (fun n => n.all isScalar && decide (n ≠ [42])) && prRows names.length rows
   | .tt => true
 def prOpts : List (Option Rep) → Bool
   | [] => true
